@@ -13,14 +13,16 @@ PROP = dict(
          "non-trivial = well-formed, at least 3 points and iter_count >= 1",
     class_names={0: "Ok", 1: "error", 2: "panic", 3: "hang"},
     trusted_base=[
-        "axioms: none (every theorem of Properties/C04.v is closed under the global context)",
+        "axioms: C04_rcb_split_balanced and C04_mid_spec use the real-number axioms of Coq's standard library through Flocq 4.1 "
+        "(ClassicalDedekindReals.sig_forall_dec, ClassicalDedekindReals.sig_not_dec, "
+        "FunctionalExtensionality.functional_extensionality_dep, Classical_Prop.classic); C04_generic, the checker theorems and the "
+        "refutation witnesses are closed under the global context",
+        "Flocq 4.1 (BinarySingleNaN) as the link between Coq's SpecFloat operations and the real numbers",
         "Rib: the rotated points enter as data recorded by the hook",
         "modelled, not verified: i64 overflow of weight sums (contract), f64 weights (run with integer values only)",
     ],
     assumptions=[
         "coordinates are finite f64 whose binary32 image is finite; weights are non-negative integers whose sum is below 2^53",
-        "C04_rcb_split_balanced_partial has the premise MidSpec (f32_mid true): the midpoint `min/2 + max/2` of two finite binary32 values "
-        "is finite and, when it is not strictly between them, no finite value is -- true of IEEE binary32, NOT proved for SpecFloat here",
         "box_ok32 (the root box, f64 min/max then `as f32`, encloses the binary32 coordinates) is a decidable premise evaluated on every "
         "in-contract case by Run/RunC04.v (a false would count as a correspondence failure)",
     ],
@@ -28,11 +30,12 @@ PROP = dict(
 
 MANIFEST = dict(
     text="Theorem rcb_split_balanced (loop invariant of the repaired cut search, every exit) proved for all inputs and split trees under "
-         "two named hypotheses on the midpoint expression (not discharged for SpecFloat: partial), with refutation witnesses for the three "
+         "two facts about the midpoint expression `min/2 + max/2`, both proved for SpecFloat binary32 with Flocq (the midpoint of finite "
+         "values is finite; when it is not strictly between them no finite value is), with refutation witnesses for the three "
          "old stop rules and for the three float-edge defects found while modelling (repaired in /repo: 241da30, a287019, 6449881); a checker proved sound for `within tolerance or bracketing` judges every bisection of "
          "every implementation output; model and implementation are compared on generated inputs (exact ids).",
     design_ref="DESIGN.md §7 C04",
-    note="Trusted: Coq kernel; differential run; SpecFloat = hardware binary32/64. The full statement has the premise MidSpec "
-         "(partial); the certified checker and the exact-ids correspondence carry the claim. No axioms.",
+    note="Trusted: Coq kernel; differential run; SpecFloat = hardware binary32/64. The instance theorem uses the standard "
+         "real-number axioms through Flocq; box_ok32 is a decidable premise evaluated on every case.",
     technique="Coq proof (loop invariant) + refutation witnesses by vm_compute + model/implementation correspondence + certified checker",
 )
